@@ -7,3 +7,24 @@ From BV Require Import Model.Expr Model.EvalX Model.EvalI.
 Theorem T01_expr_eqb_example : expr_eqb (EBin Plus (ENumZ 1) (EVar "x")) (EBin Plus (ENumZ 1) (EVar "x")) = true.
 Proof. vm_compute. reflexivity. Qed.
 Print Assumptions T01_expr_eqb_example.
+
+From Coq Require Import Reals.
+From Interval Require Import Xreal Interval.
+From BV Require Import Proofs.EvalIP.
+
+(* T01f. The executable oracle is sound: whatever the interval evaluator returns encloses the
+   mathematical value evalX -- for every expression tree, every environment, every Phi with a
+   correct interval extension.  (The correspondence streams compare the engine's and the Python
+   evaluator's doubles with these enclosures.) *)
+Theorem T01f_evalI_sound : forall (Phi : R -> R) (PhiI : I.type -> I.type),
+  (forall i r, contains (I.convert i) (Xreal r) -> contains (I.convert (PhiI i)) (Xreal (Phi r))) ->
+  forall (e : expr) (d : denv), sound (evalI PhiI e d) (evalX Phi e (env_of d)).
+Proof. exact evalI_sound. Qed.
+Print Assumptions T01f_evalI_sound.
+
+(* the differ is sound as well: an Agree verdict bounds the distance to the mathematical value *)
+Theorem T01f_judge_sound : forall v y relbits x,
+  judge v y relbits = Agree -> sound v x ->
+  exists r, x = XR r /\ (Rabs (D2R y - r) <= (Rabs (D2R y) + 1) * powerRZ 2 relbits)%R.
+Proof. exact judge_agree_sound. Qed.
+Print Assumptions T01f_judge_sound.
